@@ -44,6 +44,13 @@ def split_goal(g, hyps=(), depth=0):
         a, b = g.children()
         if z3.is_and(b) or (z3.is_quantifier(b) and b.is_forall()):
             return split_goal(b, hyps + (a,), depth + 1)
+    if z3.is_or(g):
+        # Or(l1, .., lk, C) with exactly one conjunctive / universal disjunct C (the shape z3's simplifier gives an
+        # implication): prove C under the negated other disjuncts
+        big = [ch for ch in g.children() if z3.is_and(ch) or (z3.is_quantifier(ch) and ch.is_forall())]
+        if len(big) == 1:
+            rest = tuple(z3.Not(ch) for ch in g.children() if not z3.eq(ch, big[0]))
+            return split_goal(big[0], hyps + rest, depth + 1)
     return [(hyps, g)]
 
 
